@@ -34,6 +34,21 @@ groups = {
  'tuifront': ['crates/trippy-tui/src/frontend.rs', 'crates/trippy-tui/src/frontend/tui_app.rs'],
  'tuirender': ['crates/trippy-tui/src/frontend/render/table.rs', 'crates/trippy-tui/src/frontend/render/world.rs', 'crates/trippy-tui/src/frontend/render/header.rs', 'crates/trippy-tui/src/frontend/render/history.rs', 'crates/trippy-tui/src/frontend/render/chart.rs', 'crates/trippy-tui/src/frontend/render/flows.rs', 'crates/trippy-tui/src/frontend/render/settings.rs', 'crates/trippy-tui/src/frontend/render/tabs.rs', 'crates/trippy-tui/src/frontend/render/body.rs', 'crates/trippy-tui/src/frontend/render/app.rs'],
 }
+groups2 = {
+ 'tuifile': ['crates/trippy-tui/src/config/file.rs', 'crates/trippy-tui/src/config/cmd.rs', 'crates/trippy-tui/src/config/constants.rs', 'crates/trippy-tui/src/config/columns.rs'],
+ 'tuibind': ['crates/trippy-tui/src/config/binding.rs', 'crates/trippy-tui/src/config/theme.rs', 'crates/trippy-tui/src/frontend/binding.rs', 'crates/trippy-tui/src/frontend/theme.rs'],
+ 'tuiloop': ['crates/trippy-tui/src/frontend.rs', 'crates/trippy-tui/src/frontend/config.rs'],
+ 'tuisettings': ['crates/trippy-tui/src/frontend/render/settings.rs', 'crates/trippy-tui/src/frontend/render/tabs.rs', 'crates/trippy-tui/src/frontend/render/help.rs', 'crates/trippy-tui/src/frontend/render/util.rs', 'crates/trippy-tui/src/frontend/render/footer.rs'],
+ 'tuicharts': ['crates/trippy-tui/src/frontend/render/chart.rs', 'crates/trippy-tui/src/frontend/render/histogram.rs', 'crates/trippy-tui/src/frontend/render/history.rs', 'crates/trippy-tui/src/frontend/render/bar.rs', 'crates/trippy-tui/src/frontend/render/flows.rs', 'crates/trippy-tui/src/frontend/render/app.rs', 'crates/trippy-tui/src/frontend/render/body.rs', 'crates/trippy-tui/src/frontend/render/splash.rs', 'crates/trippy-tui/src/frontend/render/bsod.rs'],
+ 'coretypes': ['crates/trippy-core/src/config.rs', 'crates/trippy-core/src/types.rs', 'crates/trippy-core/src/error.rs', 'crates/trippy-core/src/lib.rs', 'crates/trippy-core/src/constants.rs'],
+ 'source': ['crates/trippy-core/src/net/source.rs', 'crates/trippy-core/src/net/socket.rs', 'crates/trippy-core/src/net.rs', 'crates/trippy-core/src/net/platform.rs', 'crates/trippy-core/src/net/platform/byte_order.rs', 'crates/trippy-core/src/net/platform/unix.rs'],
+ 'dns': ['crates/trippy-dns/src/lazy_resolver.rs', 'crates/trippy-dns/src/resolver.rs', 'crates/trippy-dns/src/config.rs', 'crates/trippy-dns/src/lib.rs', 'crates/trippy-tui/src/geoip.rs'],
+ 'report': ['crates/trippy-tui/src/report/types.rs', 'crates/trippy-tui/src/report/csv.rs', 'crates/trippy-tui/src/report/table.rs', 'crates/trippy-tui/src/report/json.rs', 'crates/trippy-tui/src/report/stream.rs', 'crates/trippy-tui/src/report/dot.rs', 'crates/trippy-tui/src/report/flows.rs', 'crates/trippy-tui/src/report/silent.rs', 'crates/trippy-tui/src/report.rs', 'crates/trippy-tui/src/print.rs'],
+ 'buffer': ['crates/trippy-packet/src/buffer.rs', 'crates/trippy-packet/src/lib.rs', 'crates/trippy-packet/src/error.rs'],
+ 'tuilib': ['crates/trippy-tui/src/lib.rs', 'crates/trippy-tui/src/locale.rs', 'crates/trippy-tui/src/util.rs', 'crates/trippy-privilege/src/lib.rs', 'crates/trippy/src/lib.rs', 'crates/trippy/src/main.rs'],
+}
+if len(sys.argv) > 2 and sys.argv[2] == 'set2':
+    groups = groups2
 ptext = '\n\n'.join(f"### {p['id']} — {p.get('title','')}\n{p.get('statement', p.get('text',''))}" for p in props)
 for g, files in groups.items():
     files = [f for f in files if os.path.exists('/repo/' + f)]
